@@ -55,7 +55,9 @@ RULE = ("parameter points per mechanism family from the seed: epsilon log-unifor
         "positive total (an all-zero measure gives NaN probabilities and is outside the quantifier; negative entries "
         "must be refused — regression stream for 47698b4). A case is one (mechanism, parameters, "
         "neighbour pair); non-trivial when both laws have at least two atoms of mass >= 1e-9; distinct by its "
-        "canonical parameter tuple")
+        "canonical parameter tuple. Life-cycle stratum: one object, construct -> 0-2 randomise calls -> optional copy() -> "
+        "epsilon assigned (Binary: any value, lower or higher; classes that calibrate in __init__: the same value, or a higher "
+        "one for the ratio only) -> the extracted law of the running sampler against the CURRENT epsilon")
 
 M = dp.mechanisms
 GRID = 1 << 53
@@ -2352,6 +2354,11 @@ def check_cross(ctx, r, n):
             cross_simple_case(ctx, r, lines, cases, "geom")
         else:
             cross_simple_case(ctx, r, lines, cases, "cat")
+    _cross_compare(ctx, lines, cases)
+
+
+def _cross_compare(ctx, lines, cases, prefix="cross-instance"):
+    """model laws (Discrete driver) vs the extracted laws collected by the cross-instance / life-cycle strata"""
     outs = leanio.run_driver("Discrete", lines) if lines else []
     geom_cases, geom_outs = [], []
     for cs, out in zip(cases, outs):
@@ -2363,7 +2370,7 @@ def check_cross(ctx, r, n):
         _, fam, seq, i = cs[:4]
         where = {"sequence": seq, "instance": i, "changed": seq[i].get("_changed")}
         if not out.startswith("ok"):
-            ctx.disagree("cross." + fam + ".driver", where, out, None)
+            ctx.disagree(prefix + "." + fam + ".driver", where, out, None)
             continue
         if kind == "elaw":
             _, _, _, _, tag, law, paf = cs
@@ -2372,13 +2379,13 @@ def check_cross(ctx, r, n):
             if any(q != q for q in pmf):
                 ctx.count("exp_nan_law_skipped")
                 continue
-            compare_law(ctx, "cross-instance." + fam + ".law", {**where, "which": tag}, law, {j: q for j, q in enumerate(pmf)},
+            compare_law(ctx, prefix + "." + fam + ".law", {**where, "which": tag}, law, {j: q for j, q in enumerate(pmf)},
                         extra_unc=(len(pmf) + 2) * 2.0 ** -52 + law.cut)
         elif kind == "blaw":
             laws = cs[4]
             pf = b2f(int(out.split()[1]))
-            compare_law(ctx, "cross-instance.Binary.law", where, laws["a"], {"a": 1 - pf, "b": pf}, extra_unc=4 * 2.0 ** -52)
-            compare_law(ctx, "cross-instance.Binary.law", where, laws["b"], {"b": 1 - pf, "a": pf}, extra_unc=4 * 2.0 ** -52)
+            compare_law(ctx, prefix + ".Binary.law", where, laws["a"], {"a": 1 - pf, "b": pf}, extra_unc=4 * 2.0 ** -52)
+            compare_law(ctx, prefix + ".Binary.law", where, laws["b"], {"b": 1 - pf, "a": pf}, extra_unc=4 * 2.0 ** -52)
         elif kind == "claw":
             ranks, laws = cs[4], cs[5]
             parts = out.split(" | ")
@@ -2389,10 +2396,221 @@ def check_cross(ctx, r, n):
             inv = {v: k for k, v in ranks.items()}
             for ii, d in enumerate(dom):
                 model = {inv[t]: rows[ii * nn + j] for j, t in enumerate(dom)}
-                compare_law(ctx, "cross-instance.ExponentialCategorical.law", {**where, "value": inv[d]}, laws[inv[d]], model,
+                compare_law(ctx, prefix + ".ExponentialCategorical.law", {**where, "value": inv[d]}, laws[inv[d]], model,
                             extra_unc=(nn + 2) * 2.0 ** -52)
     if geom_cases:
         _geom_compare(ctx, geom_cases, geom_outs)
+
+
+# ------------------------------------------------------------------------------------------------------------------
+# LIFE-CYCLE stratum: ONE object: construct -> (optionally randomise) -> (optionally copy()) -> assign epsilon -> the law of
+# the sampler that runs NOW is extracted and must (a) satisfy the ratio for the CURRENT epsilon attribute (`_check_all`
+# validates the live attribute on every call, so that is the parameter in force) and (b) be the model's law for the current
+# parameters.  Binary reads epsilon at call time: every assignment is covered.  The Geometric family (_scale), Exponential /
+# PermuteAndFlip (_probabilities) and ExponentialCategorical (_normalising_constant) compute their calibration in __init__
+# and keep it after an assignment in the tree as it is (reported, not a known-findings entry): for them the stratum covers
+# the sequences that do not depend on a re-calibration — re-assigning the SAME epsilon (law + ratio) and, except for the
+# categorical mechanism (stale normalisers with live weights), RAISING epsilon (ratio only: the construction-time
+# calibration is then stricter than required).
+# ------------------------------------------------------------------------------------------------------------------
+LIVE_FAMILIES = ["Binary", "geom", "Exponential", "PermuteAndFlip", "ExponentialCategorical"]
+
+
+def adopt(sc, mech):
+    """a Scripted view of another object (a copy()) that draws from the same scripted generator"""
+    v = Scripted.__new__(Scripted)
+    v.rng, v.mech, v.evals = sc.rng, mech, 0
+    return v
+
+
+def live_describe(fam, lc):
+    name = GEOM_NAME[lc["ctor"]["variant"]] if fam == "geom" else fam
+    ctor = {k: v for k, v in lc["ctor"].items() if k not in ("variant", "perm", "labels")}
+    steps = [f"m = {name}({', '.join(f'{k}={v!r}' for k, v in ctor.items() if v is not None)})"]
+    if lc["warm"]:
+        steps.append(f"m.randomise(...) x{lc['warm']}")
+    if lc["copy"]:
+        steps.append("q = m.copy()")
+    steps.append(f"{'q' if lc['copy'] else 'm'}.epsilon = {lc['epsilon']!r}")
+    return "; ".join(steps)
+
+
+def live_take(sc_or_mech, lc, warm_args, paf=False):
+    """run the life-cycle on a constructed object; returns (the object whose sampler is measured, the template or None)"""
+    mech = sc_or_mech if paf else sc_or_mech.mech
+    if not paf:
+        for j in range(lc["warm"]):
+            sc_or_mech.at_u(lc["warm_u"][j], *warm_args)
+    tgt = mech.copy() if lc["copy"] else mech
+    tgt.epsilon = lc["epsilon"]
+    if paf:
+        return tgt, (mech if lc["copy"] else None)
+    return (adopt(sc_or_mech, tgt) if lc["copy"] else sc_or_mech), (sc_or_mech if lc["copy"] else None)
+
+
+def live_laws(fam, lc, x, xp, extra=None):
+    """{'x': law, 'xp': law, 'tx': law of the template for x (after copy) or None} of the object taken through lc"""
+    c = lc["ctor"]
+    if fam == "Binary":
+        sc = Scripted(lambda rng: M.Binary(epsilon=c["epsilon"], value0=c["value0"], value1=c["value1"], random_state=rng))
+        cur, tpl = live_take(sc, lc, (c["value0"],))
+        return {"x": binary_law(cur, x)[0], "xp": binary_law(cur, xp)[0], "tx": binary_law(tpl, x)[0] if tpl else None,
+                "txp": binary_law(tpl, xp)[0] if tpl else None}
+    if fam == "geom":
+        sc = Scripted(build_geom(c["variant"], c["epsilon"], c["sensitivity"], c["lower"], c["upper"]))
+        cur, tpl = live_take(sc, lc, (x,))
+        s_ = min(c["epsilon"], lc["epsilon"]) / c["sensitivity"]
+        return {"x": geom_full_law(cur, c["variant"], x, s_, eta_div=8.0)[0], "xp": geom_full_law(cur, c["variant"], xp, s_, eta_div=8.0)[0],
+                "tx": None}
+    if fam in ("Exponential", "PermuteAndFlip"):
+        paf = fam == "PermuteAndFlip"
+        out = {"tx": None}
+        for tag, util in (("x", x), ("xp", xp)):
+            inst, prx, _, _, cands = cross_exp_build(c, util, paf)
+            cur, _ = live_take(inst, lc, (), paf=paf)
+            out[tag] = cross_exp_law(cur, prx, cands, paf)
+        return out
+    sc = Scripted(lambda rng: M.ExponentialCategorical(epsilon=c["epsilon"], utility_list=[list(t) for t in c["utility_list"]],
+                                                       random_state=rng))
+    cur, _ = live_take(sc, lc, (x,))
+    out = {"tx": None, "all": {}}
+    for v in sorted({t[0] for t in c["utility_list"]} | {t[1] for t in c["utility_list"]}):
+        out["all"][v] = Law()
+        out["all"][v].add_segs(extract_steps(lambda k, v=v: cur.at(k, v), 0, GRID - 1))
+    out["x"], out["xp"] = out["all"][x], out["all"][xp]
+    return out
+
+
+def live_ratio(ctx, fam, lc, x, xp, la, lb, extra=None):
+    eps = lc["epsilon"]
+    bound = exp_eps(eps)
+    name = GEOM_NAME[lc["ctor"]["variant"]] if fam == "geom" else fam
+    for a, b, xa, xb in ((la, lb, x, xp), (lb, la, xp, x)):
+        for o in a.atoms():
+            p, q = a.p(o), b.p(o)
+            if p - a.unc(o) > bound * (q + b.unc(o)) * (1 + SLACK):
+                ctx.violation(f"C01:{name}:stale-after-assignment",
+                              f"{live_describe(fam, lc)}: the sampler that runs now has P[{o}|{xa}]={p!r} > e^{eps!r} * "
+                              f"P[{o}|{xb}]={q!r} (ratio {p / q if q else INF:.6g} vs bound {bound:.6g} for the current epsilon)",
+                              {"family": name, "mode": "live", "fam": fam, "life_cycle": lc, "x": xa, "xp": xb, "atom": o, "p": p, "q": q,
+                               "eps": eps, **(extra or {})})
+                return False
+    return True
+
+
+def gen_live_steps(r, eps1, every_assignment):
+    """(warm-up calls, copy?, assigned epsilon).  every_assignment: the class reads epsilon at call time"""
+    if every_assignment:
+        eps2 = r.choice([eps1 * r.choice([0.5, 0.25, 1.0 / 6, 0.1, 2.0, 4.0, 1.5]), r.choice([0.5, 0.1, 1.0, 3.0]), r.loguniform(0.02, 6.0), eps1])
+    else:
+        eps2 = r.choice([eps1, eps1, eps1 * r.choice([2.0, 4.0, 1.5, 1.0 + 2.0 ** -20])])
+    warm = r.choice([0, 1, 1, 2])
+    return {"warm": warm, "warm_u": [r.u01() for _ in range(warm)], "copy": r.chance(0.5), "epsilon": float(eps2)}
+
+
+def live_case(ctx, r, lines, cases, fam):
+    e0 = r.choice([3.0, 2.0, 1.0, 0.5, r.loguniform(0.05, 5.0)])
+    if fam == "Binary":
+        ctor = {"epsilon": e0, "value0": "a", "value1": "b"}
+        x, xp = "a", "b"
+    elif fam == "geom":
+        v = r.choice(["p", "t", "t", "f"])
+        sens = r.choice([1, 1, 2, 3])
+        x = r.randint(-20, 20)
+        ctor = {"variant": v, "epsilon": max(e0, 0.3) * sens, "sensitivity": sens,
+                "lower": None if v == "p" else x - r.randint(0, 6), "upper": None if v == "p" else x + r.randint(1, 6)}
+        xp = x + r.choice([-1, 1]) * r.choice([sens, 1])
+    elif fam in ("Exponential", "PermuteAndFlip"):
+        paf = fam == "PermuteAndFlip"
+        n = r.randint(2, 3 if paf else 5)
+        sens = r.choice([1.0, 1.0, 2.0, 0.5])
+        ctor = {"epsilon": e0, "sensitivity": sens, "monotonic": r.chance(0.5),
+                "measure": None if paf or r.chance(0.5) else [r.choice([1.0, 2.0, 0.5]) for _ in range(n)],
+                "labels": r.chance(0.3), "perm": list(range(n))}
+        x = [r.randint(-3, 3) * sens for _ in range(n)]
+        o = r.next() % n
+        if r.chance(0.6) and not ctor["monotonic"]:
+            xp = [a + sens for a in x]
+            xp[o] = x[o] - sens
+        else:
+            xp = [a + (sens if r.chance(0.6) else 0.0) for a in x]
+        if not within(x, xp, sens, ctor["monotonic"]):
+            ctx.case(None)
+            return
+    else:
+        n = r.randint(2, 4)
+        labels = r.sample(LABEL_POOL, n)
+        ul = [[labels[i], labels[j], float(r.randint(0, 4)) * 0.5] for i in range(n) for j in range(i + 1, n)]
+        if all(t[2] == 0 for t in ul):
+            ul[0][2] = 1.0
+        ctor = {"epsilon": e0, "utility_list": ul}
+        x, xp = labels[0], labels[1]
+    lc = dict(gen_live_steps(r, ctor["epsilon"], fam == "Binary"), ctor=ctor)
+    if fam == "ExponentialCategorical":
+        lc["epsilon"] = float(ctor["epsilon"])
+    if fam == "PermuteAndFlip":
+        lc["warm"], lc["warm_u"] = 0, []
+    same = lc["epsilon"] == ctor["epsilon"]
+    try:
+        laws = live_laws(fam, lc, x, xp)
+    except (ValueError, TypeError, ZeroDivisionError, FloatingPointError) as e:
+        ctx.count("live_constructor_refused:" + type(e).__name__)
+        ctx.case(None)
+        return
+    name = GEOM_NAME[ctor["variant"]] if fam == "geom" else fam
+    if any(isinstance(o, str) and o.startswith("ERR") for l in (laws["x"], laws["xp"]) for o in l.mass):
+        ctx.count("live_error_outcome_skipped")
+        ctx.case(None)
+        return
+    live_ratio(ctx, fam, lc, x, xp, laws["x"], laws["xp"])
+    ctx.case(("live-" + name, repr(lc), repr(x), repr(xp)) if nontrivial(laws["x"], laws["xp"]) else None)
+    ctx.count("live_objects")
+    # (b) the model's law for the CURRENT parameters (and, after copy(), for the template's own)
+    seq = [dict({k: v for k, v in ctor.items()}, epsilon=lc["epsilon"], _changed="life-cycle: " + live_describe(fam, lc))]
+    if fam == "Binary":
+        lines.append(f"binarylaw {fl(lc['epsilon'])}")
+        cases.append(("blaw", fam, seq, 0, {"a": laws["x"], "b": laws["xp"]}))
+        if laws["tx"] is not None:
+            tseq = [dict(ctor, _changed="template of: " + live_describe(fam, lc))]
+            lines.append(f"binarylaw {fl(ctor['epsilon'])}")
+            cases.append(("blaw", fam, tseq, 0, {"a": laws["tx"], "b": laws["txp"]}))
+        return
+    if not same:
+        return                       # calibration of construction time kept by the tree as it is: ratio only
+    if fam == "geom":
+        c = dict({k: ctor[k] for k in ("variant", "epsilon", "sensitivity", "lower", "upper")}, x=x, xp=xp)
+        s_ = ctor["epsilon"] / ctor["sensitivity"]
+        K = min(6000, int(38.0 / s_) + 3)
+        lines.append(geom_model_pmf_lines(c, K))
+        cases.append(("pmf", c, K, {x: laws["x"], xp: laws["xp"]}))
+        for val_ in sorted({x, xp}):
+            pl = geom_post_line(c, [val_ + k for k in range(-K, K + 1)])
+            if pl:
+                lines.append(pl)
+                cases.append(("post", c, val_, K))
+    elif fam in ("Exponential", "PermuteAndFlip"):
+        paf = fam == "PermuteAndFlip"
+        for tag, util in (("x", x), ("xp", xp)):
+            c = {"epsilon": ctor["epsilon"], "sensitivity": ctor["sensitivity"], "monotonic": ctor["monotonic"], "measure": ctor["measure"]}
+            lines.append(exp_line("paflaw" if paf else "exp", c, util))
+            cases.append(("elaw", fam, seq, 0, tag, laws[tag], paf))
+    else:
+        ranks = rank_of(sorted({t[0] for t in ctor["utility_list"]} | {t[1] for t in ctor["utility_list"]}))
+        triples = [(ranks[p], ranks[q], float(v)) for p, q, v in ctor["utility_list"]]
+        lines.append(cat_line("catlaw", ctor["epsilon"], triples))
+        cases.append(("claw", fam, seq, 0, ranks, laws["all"]))
+
+
+def check_lifecycle(ctx, r, n):
+    lines, cases = [], []
+    for i in range(n):
+        if i >= 12 and over_time(ctx, 1.0):
+            break
+        m = r.u01()
+        fam = "Binary" if m < 0.5 else "geom" if m < 0.65 else "Exponential" if m < 0.8 else "PermuteAndFlip" if m < 0.85 \
+            else "ExponentialCategorical"
+        live_case(ctx, r, lines, cases, fam)
+    _cross_compare(ctx, lines, cases, prefix="life-cycle")
 
 
 def generate(ctx):
@@ -2411,6 +2629,7 @@ def generate(ctx):
 
 def check(ctx):
     check_binary(ctx, ctx.fork("binary"), ctx.budget(60, 300))
+    check_lifecycle(ctx, ctx.fork("life-cycle"), ctx.budget(60, 600))
     check_geometric(ctx, ctx.fork("geometric"), ctx.budget(95, 800))
     check_exponential(ctx, ctx.fork("exponential"), ctx.budget(400, 3000))
     check_exponential(ctx, ctx.fork("negative-measure"), ctx.budget(20, 200), negative=True)
@@ -2517,9 +2736,19 @@ def still_fails_cross(d):
     return a >= MIN_MASS and a - la.unc(o) > exp_eps(eps) * (b + lb.unc(o)) * (1 + SLACK), a, b
 
 
+def still_fails_live(d):
+    """take a fresh object through the recorded life-cycle again and re-extract the two laws"""
+    laws = live_laws(d["fam"], d["life_cycle"], d["x"], d["xp"])
+    o = d["atom"]
+    a, b = laws["x"].p(o), laws["xp"].p(o)
+    return a >= MIN_MASS and a - laws["x"].unc(o) > exp_eps(d["eps"]) * (b + laws["xp"].unc(o)) * (1 + SLACK), a, b
+
+
 def still_fails(d):
     if d.get("mode") == "typed":
         return still_fails_typed(d)
+    if d.get("mode") == "live":
+        return still_fails_live(d)
     if d.get("mode") == "cross":
         return still_fails_cross(d)
     fam, p, x, xp, o, eps = d["family"], d["params"], d["x"], d["xp"], d["atom"], d["eps"]
